@@ -49,6 +49,24 @@ def problem(space_seed, name):
       return prob, meta
 
 
+def construct_gp_designers():
+  """Another study that uses a GP designer ran first: the designers cannot suggest in this sandbox, but constructing them runs
+  their setup code, which must leave process-wide configuration (e.g. the jax precision flags) alone."""
+  from vizier import pyvizier as vz
+  p = vz.ProblemStatement()
+  p.search_space.root.add_float_param('x', 0.0, 1.0)
+  p.metric_information.append(vz.MetricInformation(name='m', goal=vz.ObjectiveMetricGoal.MAXIMIZE))
+  made = []
+  for mod, cls in (('gp_bandit', 'VizierGPBandit'), ('gp_ucb_pe', 'VizierGPUCBPEBandit')):
+    try:
+      m = __import__('vizier._src.algorithms.designers.' + mod, fromlist=[cls])
+      getattr(m, cls)(p)
+      made.append(cls)
+    except Exception:  # pylint: disable=broad-except
+      pass
+  return made
+
+
 def perturb(k):
   """Change everything a run is not allowed to depend on."""
   import numpy as np
@@ -163,7 +181,9 @@ def main():
   boot.boot()
   spec = json.loads(sys.argv[1])
   perturb(spec['perturb'])
-  if spec.get('before'):
+  if spec.get('before') == 'gp_construct':
+    construct_gp_designers()
+  elif spec.get('before'):
     # another study first, in the same process
     run_mode('designer', spec['before'], 1, 99, [2, 2])
   res = run_mode(spec['mode'], spec['name'], spec['seed'], spec['space_seed'], spec['steps'])
